@@ -48,9 +48,17 @@ def check_C03(pid, tier, seed, verdict):
     run = V.run_harness(pid, "c03", seed, tier, sp)
     res = V.run_trace(pid, "Trace_Wire.tla", "Trace_Wire.cfg", run["trace"])
     verdict.add_trace_result("codec", res, run)
+    # frames that reach the wire without passing the codec (padding frames written by the session's padding path):
+    # the wire must still parse into frames with honest headers (run shared with C04/C05; only these clauses count)
+    pmcs, pg, pscs, prun, pres = _padding(pid, tier, seed, verdict)
+    pres = dict(pres)
+    pres["bad"] = [b for b in pres["bad"] if b["why"].startswith(("packet bytes do not parse", "frame header"))]
+    verdict.add_trace_result("padding", pres, prun)
+    mcs += pmcs
     cnt = res["cnt"]
     V.log(f"[{pid}] trace: {res['lines']} events, {cnt['scn']} scenarios, {cnt['decode']} decode calls, "
-          f"{cnt['encode']} encodes, bad={len(res['bad'])}")
+          f"{cnt['encode']} encodes, {cnt['sfrag']} session-level fragmentations, {pres['cnt']['packet']} padded packets parsed, "
+          f"bad={len(res['bad'])}+{len(pres['bad'])}")
     cov = _cov(mcs, cnt["scn"], cnt["nontrivial"],
                "scenario = one byte stream in one fragmentation fed to the real decoder (TLC-generated abstract "
                "behaviours concretised at boundary sizes + random strings) or one batch of encode calls; non-trivial = "
